@@ -150,10 +150,24 @@ def register_family_in_deref(g):
     return doc, insts, (not other), "register-family-in-deref-%s" % ("other" if other else "same")
 
 
+def capture_in_deref(g):
+    """two plain operand captures (their names may differ only by a width-like suffix: `&r1` and `&r1.64` are two
+    independent names) bound by one instruction; one of them is used again as a component of a `$deref`: the memory
+    operand must be based on the text bound to THAT name"""
+    n1, n2 = g.pick([("&r1", "&r1.64"), ("&r1.64", "&r1"), ("&a", "&b"), ("&x.32", "&x"), ("&p.8l", "&p.16")])
+    r1, r2 = g.r.sample(["%rax", "%rbx", "%rcx", "%rsi"], 2)
+    ref = g.pick([n1, n2])
+    bound = r1 if ref == n1 else r2
+    base = g.pick([bound, bound, r2 if bound == r1 else r1, "%rdi"])
+    doc = {"pattern": [{"mov": [n1, n2]}, {"lea": [{"$deref": {"main_reg": ref, "constant_offset": "0x10"}}, "r11"]}]}
+    insts = [("1000", "mov", [r1, r2]), ("1003", "lea", ["0x10(%s)" % base, "%r11"]), ("1007", "ret", [])]
+    return doc, insts, base == bound, "capture-in-deref-%s" % ("same" if base == bound else "other")
+
+
 def run(ctx, factor):
     rep = ctx.report
-    for _ in range(ctx.budget(24, 600) * factor):
-        doc, insts, exp, tag = register_family_in_deref(ctx.g)
+    for it in range(ctx.budget(40, 900) * factor):
+        doc, insts, exp, tag = register_family_in_deref(ctx.g) if it % 2 else capture_in_deref(ctx.g)
         o = patdiff.observe(ctx, doc, insts, modes=("bool",))
         usable = patdiff.correspondence(ctx, o)
         if o.get("impl_bool") is not None and o["impl_bool"] != ("ok", exp):
